@@ -645,6 +645,8 @@ fn one_query(ctx: &mut Ctx, r: &mut Rng, sc: &Scenario, pool: &[PathBuf], cache:
             }
             let sig = match cause {
                 "spelling" => format!("discover|relative-start|{spell_class}"),
+                // a ceiling on the directory holding the repository decides the outcome wherever the walk started
+                "ceiling" if ceil_class == "ceiling-at-discovery-dir" => format!("discover|ceiling|{ceil_class}|{kind}"),
                 // walking up through a look-alike `.git` directory: one class whatever else is involved
                 _ if layout == "start-inside-invalid-dot-git" => format!("discover|layout|{layout}|{kind}"),
                 "ceiling" => format!("discover|ceiling|{ceil_class}|{kind}"),
